@@ -430,6 +430,18 @@ func TestC02(t *testing.T) {
 				}
 				return c
 			}
+			if rapid.IntRange(0, 199).Draw(t, "megabytes") == 93 {
+				// payloads of several hundred kilobytes that pile up behind a sender that starts late: more than a
+				// megabyte in one round of the sender
+				c := E1Case{Kind: rapid.SampledFrom([]string{"qblock", "qnonblock"}).Draw(t, "kind"), Queue: rapid.SampledFrom([]int{3, 4, 8}).Draw(t, "queue")}
+				task := E1Task{Role: "writer"}
+				for _, n := range rapid.SampledFrom([][]int{{614400, 614400}, {524288, 524288, 1}, {700000, 5, 400000}, {1048576, 1}}).Draw(t, "mbsizes") {
+					task.Ops = append(task.Ops, E1Op{Op: rapid.SampledFrom([]string{"write1", "writev", "ctxwrite1"}).Draw(t, "entry"), Sizes: []int{n}})
+				}
+				c.Tasks = []E1Task{task}
+				c.Prefix = []E1Dir{{Task: 0, Label: "\x00end"}} // the writer finishes all its calls before the sender gets to run
+				return c
+			}
 			c := genWritersCase(t, []string{"qblock", "qblock", "qnonblock", "sync"}, false)
 			if c.Kind != "sync" && len(c.Prefix) == 0 && rapid.Bool().Draw(t, "forcedir") {
 				c.Prefix = genReleasePrefix(t, len(c.Tasks))
@@ -440,7 +452,19 @@ func TestC02(t *testing.T) {
 			if c.Stress > 0 {
 				return runC02Stress(c)
 			}
-			return runWriters(c, "C02")
+			out := runWriters(c, "C02")
+			total := 0
+			for _, tk := range c.Tasks {
+				for _, op := range tk.Ops {
+					for _, n := range op.Sizes {
+						total += n
+					}
+				}
+			}
+			if total > 1<<20 {
+				out.Classes = append(out.Classes, "more-than-a-megabyte-queued")
+			}
+			return out
 		},
 		Summary: summarizeE1,
 	})
